@@ -194,15 +194,26 @@ type node struct {
 	root string
 }
 
-// startNode builds a BfeServer the way StartUp does (minus listeners, signal
-// table and the monitor's web server) from generated files.
+// startNodeFiles is startNode for harnesses that wrote the data files themselves.
+func startNodeFiles(s *simrt.Sim, net *simnet.Net, modules []string) (*node, error) {
+	return startNodeConf(s, net, nil, modules)
+}
+
 func startNode(s *simrt.Sim, net *simnet.Net, c *nconf, modules []string) (*node, error) {
+	return startNodeConf(s, net, c, modules)
+}
+
+// startNodeConf builds a BfeServer the way StartUp does (minus listeners, signal
+// table and the monitor's web server) from generated files.
+func startNodeConf(s *simrt.Sim, net *simnet.Net, c *nconf, modules []string) (*node, error) {
 	root := confRoot()
 	// process-wide caches of the package are part of the run's state: start every run
 	// from the same point (a run must not depend on earlier runs of the process)
 	resetProcessCaches()
-	c.writeData(root)
-	writeModuleConf(root, c)
+	if c != nil {
+		c.writeData(root)
+		writeModuleConf(root, c)
+	}
 	cfg, err := bfe_conf.BfeConfigLoad(filepath.Join(root, "bfe.conf"), root)
 	if err != nil {
 		return nil, fmt.Errorf("BfeConfigLoad: %v", err)
